@@ -224,7 +224,11 @@ mod hx {
     }
 
     pub fn quiet_panics() {
-        std::panic::set_hook(Box::new(|_| {}));
+        // refusals by panic are caught and counted; VERIF_LOUD=1 shows them (to locate a panic that
+        // ends the harness itself)
+        if std::env::var("VERIF_LOUD").is_err() {
+            std::panic::set_hook(Box::new(|_| {}));
+        }
     }
 }
 use hx::*;
@@ -387,7 +391,13 @@ struct Case {
 }
 
 fn entry_json(t: &Tracker) -> Value {
-    serde_json::to_value(&ChainTrackerEntry::from(t)).expect("entry json")
+    // a request that ended in a panic inside a listener leaves that listener's lock poisoned: the
+    // state can then no longer be read.  That is a state change of a refused request (and every
+    // later request dies), so it is reported as one instead of ending the harness
+    match catch_unwind(AssertUnwindSafe(|| serde_json::to_value(&ChainTrackerEntry::from(t)).expect("entry json"))) {
+        Ok(v) => v,
+        Err(_) => json!({"unreadable": "reading the tracker state panics (a listener's lock was poisoned by a panic during an earlier request)"}),
+    }
 }
 
 impl Case {
